@@ -25,4 +25,23 @@ struct VInj : FSM::State {
 	void exitGuard(GuardControl& c) { jguard(c, 14); }
 	void exit(PlanControl& c) { jrec(c.context(), 15); }
 };
+// second injected layer (FSM::StateT<VInj<ID>, VInj2<ID>>): 'i' lines; never vetoes
+template <int ID>
+struct VInj2 : FSM::State {
+	using typename FSM::State::Control; using typename FSM::State::PlanControl; using typename FSM::State::FullControl;
+	using typename FSM::State::GuardControl; using typename FSM::State::EventControl; using typename FSM::State::ConstControl;
+	static void irec(Probe& p, int meth) { ++p.callbacks; if (!p.quiet) { p.log->tag('i'); p.log->i(meth); p.log->i(ID); p.log->nl(); } }
+	void entryGuard(GuardControl& c) { irec(c.context(), 4); }
+	void enter(PlanControl& c) { irec(c.context(), 5); }
+	void reenter(PlanControl& c) { irec(c.context(), 6); }
+	void preUpdate(FullControl& c) { irec(c.context(), 7); }
+	void update(FullControl& c) { irec(c.context(), 8); }
+	void postUpdate(FullControl& c) { irec(c.context(), 9); }
+	template <typename E> void preReact(const E&, EventControl& c) { irec(c.context(), 10); }
+	template <typename E> void react(const E&, EventControl& c) { irec(c.context(), 11); }
+	template <typename E> void postReact(const E&, EventControl& c) { irec(c.context(), 13); }
+	template <typename Q> void query(Q&, ConstControl& c) const { irec(const_cast<Probe&>(c.context()), 12); }
+	void exitGuard(GuardControl& c) { irec(c.context(), 14); }
+	void exit(PlanControl& c) { irec(c.context(), 15); }
+};
 }
